@@ -222,6 +222,13 @@ func (c *Conn) connect(ctx context.Context) error {
 	go func() {
 		select {
 		case <-ctx.Done():
+			// The dial may have completed already (both channels ready, select picks
+			// at random). Don't tear down a link the caller has been handed.
+			select {
+			case <-done:
+				return
+			default:
+			}
 			debugf("context cancellation - sending disconnect frame...")
 			c.p.write(disconnectFrame(c.srcCall, c.dstCall, c.p.port))
 		case <-done:
